@@ -591,15 +591,20 @@ func (t *Table) UpdateChain(chain *generictables.Chain) {
 		t.increfChain(chain.Name)
 	}
 	t.maybeIncrefReferredChains(chain.Name, chain.Rules)
-	if oldChain := t.chainNameToChain[chain.Name]; oldChain != nil {
+	oldChain := t.chainNameToChain[chain.Name]
+	if oldChain != nil {
 		oldNumRules = len(oldChain.Rules)
-		if oldChain.ForceProgramming {
-			t.logCxt.WithField("chainName", chain.Name).Debug("Old chain has force programming flag, decref.")
-			t.decrefChain(chain.Name)
-		}
+		// Drop the references held by the old rules while the chain is still referenced.
 		t.maybeDecrefReferredChains(chain.Name, oldChain.Rules)
 	}
 	t.chainNameToChain[chain.Name] = chain
+	if oldChain != nil && oldChain.ForceProgramming {
+		// Drop the old chain's self-reference last, with the new chain in place: if that was the
+		// last reference, decrefChain() then also releases the references that the new rules took
+		// above (otherwise the chains they refer to would stay referenced forever).
+		t.logCxt.WithField("chainName", chain.Name).Debug("Old chain has force programming flag, decref.")
+		t.decrefChain(chain.Name)
+	}
 
 	if t.chainIsReferenced(chain.Name) {
 		numRulesDelta := len(chain.Rules) - oldNumRules
